@@ -102,8 +102,76 @@ class RefTok:
             self.invalid = "trailing comma"
 
     def sig(self):
+        # the state of the reference case scan of the current word: its verdict under a few continuations
+        scan = tuple(bibtex_is_lower(self.word + suf) for suf in ("", "b", "A", "}b", "}A", "}}b", "\\b", "{\\b}"))
         return (min(self.depth, 3), self.escaped, bool(self.word), len(self.sections), bool(self.invalid), self.has_special,
-                tuple(min(len(s), 2) for s in self.sections))
+                tuple(min(len(s), 2) for s in self.sections), scan)
+
+
+SPECIAL_UPPER = {"OE", "AE", "AA", "O", "L"}
+SPECIAL_LOWER = {"i", "j", "oe", "ae", "aa", "o", "l", "ss"}
+
+
+def bibtex_is_lower(word: str) -> bool:
+    """BibTeX's von_token_found (bibtex.web, sections 397-401): is the word lower-case?  Letters inside plain brace
+    groups do not count; a special character ({ immediately followed by a backslash at brace level 0) decides by its
+    control sequence (13 built-in ones) or by the first letter inside it, and is not lower-case when it has none.
+    Backslash escapes are units as in the library's dialect: an escaped brace is plain text, an escaped letter a letter."""
+    n = len(word)
+    i = 0
+    level = 0
+
+    def letter(ch):
+        return ch.isalpha()       # (BibTeX knows ASCII letters only; the library extends the rule to Unicode letters)
+    while i < n:
+        c = word[i]
+        if c == "\\":
+            if i + 1 < n and letter(word[i + 1]):
+                return word[i + 1].islower()
+            i += 2
+            continue
+        if letter(c):
+            return c.islower()
+        if c == "{":
+            level += 1
+            i += 1
+            if i < n and word[i] == "\\":
+                i += 1
+                j = i
+                while i < n and letter(word[i]):
+                    i += 1
+                cs = word[j:i]
+                if cs in SPECIAL_UPPER or cs in SPECIAL_LOWER:
+                    return None     # one of BibTeX's 13 built-in control sequences: not modelled, not compared
+                if j == i and i < n:
+                    i += 1      # a control symbol such as \' : one character
+                while i < n and level > 0:
+                    ch = word[i]
+                    if ch == "\\":
+                        if i + 1 < n and letter(word[i + 1]):
+                            return word[i + 1].islower()
+                        i += 2
+                        continue
+                    if letter(ch):
+                        return ch.islower()
+                    if ch == "}":
+                        level -= 1
+                    elif ch == "{":
+                        level += 1
+                    i += 1
+                return False
+            while level > 0 and i < n:
+                if word[i] == "\\":
+                    i += 2
+                    continue
+                if word[i] == "}":
+                    level -= 1
+                elif word[i] == "{":
+                    level += 1
+                i += 1
+            continue
+        i += 1
+    return False
 
 
 class NameStr(AbsVal):
@@ -175,6 +243,17 @@ class TokRun:
         # a pending escape: the code has already read the escaped character ahead; compare only when in step
         if self.ref.escaped:
             return
+        cs = env.get("cases")
+        if secs == self.ref.sections and isinstance(cs, AList):
+            for si, sec in enumerate(self.ref.sections):
+                got = cs.items[si].items if si < len(cs.items) and isinstance(cs.items[si], AList) else None
+                if got is None or len(got) != len(sec):
+                    continue
+                for w, g in zip(sec, got):
+                    want_lower = bibtex_is_lower(w)
+                    if want_lower is not None and (g == 0) != want_lower:
+                        self.fail("case", f"word {w!r} is classified {'lower-case' if g == 0 else 'not lower-case'} (case {g}); BibTeX's rule "
+                                          f"(von_token_found) says {'lower-case' if want_lower else 'not lower-case'}")
         if secs != self.ref.sections or word != self.ref.word:
             self.fail("conservation", f"after {''.join(self.chars)!r}: words {secs} + current {word!r}; every character exactly once gives "
                                       f"{self.ref.sections} + {self.ref.word!r}")
